@@ -53,6 +53,26 @@ def items(tier: str) -> List[Any]:
         if s not in seen:
             seen.add(s)
             out.append(("shuffle", "RekeyTo", s))
+    # a field limited to two literal addresses by a disjunction, combined with a check of one of them (both direct checks)
+    from mc.gen import core  # pylint: disable=import-outside-toplevel
+
+    for field in ("RekeyTo", "Sender") if tier == "quick" else FIELDS:
+        disj = [f"txn {field}", f"addr {A.LIT1}", "==", f"txn {field}", f"addr {A.LIT2}", "==", "||"]
+        alpha2 = [disj, [f"txn {field}", f"addr {A.LIT1}", "=="], [f"addr {A.LIT2}", f"txn {field}", "=="], [f"txn {field}", f"addr {A.LIT1}", "!="]]
+        for nsubs, sizes in ((0, (2,) if tier == "quick" else (2, 3)), (1, (2,) if tier == "quick" else (2, 3))):
+            o = core.Opts(cond_level=0, nsubs=nsubs)
+            for size in sizes:
+                for prog, k in core.skeletons(size, o):
+                    if k < 2:
+                        continue
+                    for at in spaces._fill_two(k, alpha2, A.FREE):  # pylint: disable=protected-access
+                        if disj not in at:
+                            continue
+                        for subs_first in (False, True) if nsubs else (False,):
+                            s = core.render(prog, at, subs_first=subs_first)
+                            if s not in seen:
+                                seen.add(s)
+                                out.append(("direct", field, s))
     # soundness-only: loops that really iterate (counter conditions); multi-way branches consuming a tracked condition
     for field in ("RekeyTo", "Sender") if tier == "quick" else FIELDS:
         full_f, small = alphabets(tier, field)
